@@ -27,3 +27,12 @@ chk("C09", "exploration", "exhaustive key-size x algorithm enumeration + floor m
     "monitor asserts both directions (below floor never succeeds; at/above floor works).",
     "Trusted: OpenSSL keygen/sign as reference. secp256k1 on GnuTLS is excluded from the 'works' clause (provider lacks it).",
     "DESIGN.md 3/C09")
+chk("C01", "exploration", "systematic token mutation + independent reference verifier (OpenSSL EVP direct) under ASan/UBSan",
+    "For every provider x key type/size x admissible alg x base token (signed by the harness' own signer and by libjwt) x pin "
+    "route, 23 mutation classes are applied (every character of header/payload, every single bit of HMAC/ECDSA/EdDSA signatures, "
+    "sampled bits of RSA signatures, truncation/extension, padding, transplants from other payload/key/key type, sibling "
+    "algorithms, ECDSA corner values and re-encodings, constant signatures, extra segments, control bytes, HMAC under "
+    "attacker-computable keys); the monitor asserts accepted => reference-valid and requires every unmutated token to verify.",
+    "Trusted: OpenSSL primitives called directly; lenient reference decoding makes the check one-directional. Forgeries that need "
+    "to break the primitive are out of reach. One open known finding (Ed448 last byte on GnuTLS, root cause in nettle).",
+    "DESIGN.md 3/C01")
